@@ -17,6 +17,8 @@ differential execution in harness/rten/src/bin/c14.rs — level "proof + partial
 import RtenVerif.Lemmas.FastBroadcastIdx
 import RtenVerif.Lemmas.LayoutSeq
 import RtenVerif.Lemmas.InPlace
+import RtenVerif.Lemmas.BinaryDispatch
+import RtenVerif.Props.C09
 
 namespace RtenVerif.FastBroadcast
 
@@ -148,7 +150,7 @@ example : fastBroadcast [1, 1] [5] = .some 1 5 := by decide
 end RtenVerif.FastBroadcast
 
 namespace RtenVerif.Layout
-open RtenVerif.Arr RtenVerif.Overlap
+open RtenVerif.Arr RtenVerif.Overlap RtenVerif.Layout.Seq
 
 /-! ## T2 -/
 
@@ -231,5 +233,174 @@ example :
     (transposeOp t [1, 0]).toOption.map (·.arr) = some ⟨[3, 2], [0, 3, 1, 4, 2, 5]⟩ ∧
       (transformInputsRun 0 [1, 0] (liftOp (fun as => as.map (·.data))) [t]).toOption =
         some [[0, 3, 1, 4, 2, 5]] := by decide
+
+/-! ## D: the layout-handling glue of element-wise operators (Model/BinaryDispatch.lean) -/
+
+section Dispatch
+open RtenVerif.FastBroadcast RtenVerif.InPlace
+open RtenVerif.Iter (rowMajor)
+
+theorem bcastViewElems_eq {α : Type} (v : View) (out : List Nat) (s : Nat → α)
+    (hle : (sizes v.dims).length ≤ out.length) (hc : Compat (pairsTo (sizes v.dims) out)) :
+    bcastViewElems v out s = bcastTo (tensOf v s).data (sizes v.dims) out := by
+  unfold bcastViewElems tensOf
+  exact rowMajor_broadcast v.dims out (by simpa [sizes] using hle) hc _
+
+/-- **C14 D1.** `binary_op` on views — fast path (contiguous operands + cycles/repeats) or general
+path (broadcast strides, element by element) — returns `f` mapped over the logical broadcast
+elements of its operands, for every shape and every stride pattern (permuted, stepped, stride-0
+broadcast inputs included): it is the layout-free `binop` of the operands' logical contents. -/
+theorem c14_binary_op_layout_independent {α β γ : Type} (f : α → β → γ)
+    (a : View) (sa : Nat → α) (b : View) (sb : Nat → β) :
+    binaryOp f a sa b sb = binop f (tensOf a sa) (tensOf b sb) := by
+  unfold binaryOp binop
+  have hsa : (tensOf a sa).shape = sizes a.dims := rfl
+  have hsb : (tensOf b sb).shape = sizes b.dims := rfl
+  rw [hsa, hsb]
+  cases hbs : broadcastShapes (sizes a.dims) (sizes b.dims) with
+  | none => rfl
+  | some out =>
+    obtain ⟨hla, hca⟩ := compat_of_broadcastShapes _ _ _ hbs
+    obtain ⟨hlb, hcb⟩ := compat_of_broadcastShapes _ _ _ (by rw [broadcastShapes_comm]; exact hbs)
+    have hga := bcastViewElems_eq a out sa hla hca
+    have hgb := bcastViewElems_eq b out sb hlb hcb
+    simp only [Option.map_some]
+    split
+    · rename_i d hfast
+      congr 2
+      split at hfast
+      · rename_i hout
+        split at hfast
+        · rename_i ad bd had hbd
+          split at hfast
+          · rename_i c r hfb
+            injection hfast with hfast
+            rw [← hfast, viewData_eq a sa ad had, viewData_eq b sb bd hbd]
+            have h1 : bcastTo (tensOf a sa).data (sizes a.dims) out = (tensOf a sa).data := by
+              rw [← hout]
+              exact bcastTo_self _ _ (tensOf_data_length a sa)
+            have h2 : bcastTo (tensOf b sb).data (sizes b.dims) out =
+                cycleRepeat c r (tensOf b sb).data := by
+              rw [← hout]
+              exact c14_fast_broadcast_sound _ _ c r _ hfb (by rw [hout]; exact hlb)
+                (tensOf_data_length b sb)
+            rw [h1, h2]
+          · cases hfast
+        · cases hfast
+      · cases hfast
+    · rw [hga, hgb]
+
+
+/-- Non-vacuity: fast path (both contiguous, trailing broadcast), general path (transposed LHS,
+stride-0 RHS) and the incompatible case; the results do not depend on the path taken. -/
+example :
+    binaryOp (· + ·) ⟨0, 6, [(2, 3), (3, 1)]⟩ (fun i => 10 * i) ⟨0, 2, [(2, 1), (1, 1)]⟩ (fun i => i + 1) =
+      some ⟨[2, 3], [1, 11, 21, 32, 42, 52]⟩ ∧
+    binaryOp (· + ·) ⟨0, 6, [(2, 1), (3, 2)]⟩ (fun i => 10 * i) ⟨1, 1, [(1, 0)]⟩ (fun i => i) =
+      some ⟨[2, 3], [1, 21, 41, 11, 31, 51]⟩ ∧
+    binaryOp (· + ·) ⟨0, 6, [(2, 3), (3, 1)]⟩ (fun i => i) ⟨0, 2, [(2, 1)]⟩ (fun i => i) = none := by
+  decide
+
+/-- **C14 D2.** `unary_op` (map over the contiguous slice, or over the row-major copy made by
+`to_contiguous`) returns `f` mapped over the logical elements, whatever the layout — injective
+(permuted / stepped) or not (broadcast). -/
+theorem c14_unary_op_layout_independent {α β : Type} (f : α → β) (v : View) (s : Nat → α) :
+    unaryOp f v s = ⟨(tensOf v s).shape, (tensOf v s).data.map f⟩ := by
+  unfold unaryOp
+  split
+  · rename_i d hd
+    rw [viewData_eq v s d hd]; rfl
+  · rfl
+
+example : unaryOp (· * 2) ⟨0, 6, [(3, 1), (2, 3)]⟩ (fun i => i) = ⟨[3, 2], [0, 6, 2, 8, 4, 10]⟩ ∧
+    unaryOp (· * 2) ⟨4, 1, [(2, 0), (2, 0)]⟩ (fun i => i) = ⟨[2, 2], [8, 8, 8, 8]⟩ := by decide
+
+end Dispatch
+
+/-- Array-level meaning of one transform. -/
+def permArr (A : NArr Nat) : Option (List Nat) → Except Err (NArr Nat)
+  | some p => A.permute p
+  | none => .ok A.transpose
+
+/-- Array-level meaning of the transform list: the unfused graph seen through denotations. -/
+def specTransforms : List PermuteSpec → List (NArr Nat) → Except Err (List (NArr Nat))
+  | [], as => .ok as
+  | sp :: rest, as =>
+    match as[sp.index]? with
+    | none => .error .err
+    | some A =>
+      match permArr A sp.perm with
+      | .error e => .error e
+      | .ok A' => specTransforms rest (as.set sp.index A')
+
+theorem applyPerm_denote (t : TState) (sp : Option (List Nat)) :
+    (applyPerm t.view sp).map (fun v => denote v (fun i => t.store.getD i 0)) = permArr t.arr sp := by
+  cases sp with
+  | some p => exact c09_permute t.view p _
+  | none => simp only [applyPerm, permArr, Except.map]; rw [c09_transpose]; rfl
+
+theorem applyTransforms_spec : ∀ (specs : List PermuteSpec) (ts : List TState),
+    (applyTransforms specs ts).map (fun l => l.map TState.arr) = specTransforms specs (ts.map TState.arr)
+  | [], ts => rfl
+  | sp :: rest, ts => by
+    unfold applyTransforms specTransforms
+    rw [List.getElem?_map]
+    cases hk : ts[sp.index]? with
+    | none => rfl
+    | some t =>
+      simp only [Option.map_some]
+      have hp := applyPerm_denote t sp.perm
+      cases hv : applyPerm t.view sp.perm with
+      | error e => rw [hv] at hp; simp only [Except.map] at hp; rw [← hp]; rfl
+      | ok v =>
+        rw [hv] at hp; simp only [Except.map] at hp; rw [← hp]
+        simp only
+        rw [applyTransforms_spec rest, List.map_set]
+        rfl
+
+theorem explicitTransposes_spec : ∀ (specs : List PermuteSpec) (ts : List TState),
+    (explicitTransposes specs ts).map (fun l => l.map TState.arr) = specTransforms specs (ts.map TState.arr)
+  | [], ts => rfl
+  | sp :: rest, ts => by
+    unfold explicitTransposes specTransforms
+    rw [List.getElem?_map]
+    cases hk : ts[sp.index]? with
+    | none => rfl
+    | some t =>
+      simp only [Option.map_some]
+      have hp := applyPerm_denote t sp.perm
+      cases hv : applyPerm t.view sp.perm with
+      | error e => rw [hv] at hp; simp only [Except.map] at hp; rw [← hp]; rfl
+      | ok v =>
+        rw [hv] at hp; simp only [Except.map] at hp; rw [← hp]
+        simp only
+        rw [explicitTransposes_spec rest, List.map_set]
+        have hwf : (denote v (fun i => t.store.getD i 0)).data.length =
+            numel (denote v (fun i => t.store.getD i 0)).shape := by
+          rw [denote_data_length, denote_shape]
+        rw [ofArr_arr _ hwf]
+
+/-- **C14 D3.** `TransformInputs` with an arbitrary list of permute transforms (several inputs,
+repeated inputs, `None` = reverse) equals the unfused graph — explicit `Transpose` copies in front
+of the inner operator — for every inner operator defined on the denotation, error and panic
+paths included. -/
+theorem c14_transform_inputs_list {β : Type} (op : List (NArr Nat) → β) (specs : List PermuteSpec)
+    (ts : List TState) :
+    transformInputsRunAll specs (liftOp op) ts = (explicitTransposes specs ts).map (liftOp op) := by
+  unfold transformInputsRunAll
+  have h1 := applyTransforms_spec specs ts
+  have h2 := explicitTransposes_spec specs ts
+  have key : ∀ (e : Except Err (List TState)), e.map (liftOp op) = (e.map (fun l => l.map TState.arr)).map op := by
+    intro e; cases e <;> rfl
+  rw [key, key, h1, h2]
+
+
+example :
+    let t : TState := ⟨[0, 1, 2, 3, 4, 5], ⟨0, 6, [(2, 3), (3, 1)]⟩⟩
+    (transformInputsRunAll [⟨0, some [1, 0]⟩, ⟨1, none⟩, ⟨0, none⟩]
+        (liftOp (fun as => as.map (·.data))) [t, t]).toOption =
+      some [[0, 1, 2, 3, 4, 5], [0, 3, 1, 4, 2, 5]] ∧
+    (transformInputsRunAll [⟨2, none⟩] (liftOp (fun as => as.map (·.data))) [t, t]).toOption = none := by
+  decide
 
 end RtenVerif.Layout
